@@ -2,6 +2,7 @@
 use super::value::GeoValuePBF;
 use super::{VectorTile, VectorTileLayer};
 use crate::GeoValue;
+use byteorder::LE;
 use versatiles_core::io::*;
 use versatiles_core::types::Blob;
 
@@ -58,6 +59,168 @@ vproof! {12, fn c11_value_string() {
 	value_roundtrip(GeoValue::String(s));
 	kani::cover!(n == 2);
 }}
+
+// ---------------------------------------------------------------------------------- value codec, one side at a time
+// GeoValue::read is only reachable through `&mut dyn ValueReader`; on the repository's readers (Cursor / File behind
+// `dyn SeekRead`) CBMC does not finish. The scripted reader below answers the primitive reads with symbolic values, so the
+// harness decides the part GeoValue::read itself owns: which (field, wire type) selects which variant and how the primitive
+// value is converted. The primitives are decided separately (c11_varint_roundtrip, c11_svarint_roundtrip).
+struct ScriptReader {
+	left: u8,
+	key: (u32, u8),
+	varint: u64,
+	svarint: i64,
+	f32v: f32,
+	f64v: f64,
+}
+
+impl<'a> ValueReader<'a, LE> for ScriptReader {
+	fn get_reader(&mut self) -> &mut dyn SeekRead {
+		unreachable!()
+	}
+	fn len(&self) -> u64 {
+		self.left as u64
+	}
+	fn position(&mut self) -> u64 {
+		0
+	}
+	fn set_position(&mut self, _position: u64) -> anyhow::Result<()> {
+		Ok(())
+	}
+	fn has_remaining(&mut self) -> bool {
+		self.left > 0
+	}
+	fn read_pbf_key(&mut self) -> anyhow::Result<(u32, u8)> {
+		self.left -= 1;
+		Ok(self.key)
+	}
+	fn read_varint(&mut self) -> anyhow::Result<u64> {
+		Ok(self.varint)
+	}
+	fn read_svarint(&mut self) -> anyhow::Result<i64> {
+		Ok(self.svarint)
+	}
+	fn read_f32(&mut self) -> anyhow::Result<f32> {
+		Ok(self.f32v)
+	}
+	fn read_f64(&mut self) -> anyhow::Result<f64> {
+		Ok(self.f64v)
+	}
+	fn read_string(&mut self, _length: u64) -> anyhow::Result<String> {
+		Ok(String::new())
+	}
+	fn get_sub_reader<'b>(&'b mut self, _length: u64) -> anyhow::Result<Box<dyn ValueReader<'b, LE> + 'b>>
+	where
+		LE: 'b,
+	{
+		unreachable!()
+	}
+}
+
+vproof! {4, fn c11_value_read_kinds() {
+	let (f, w): (u32, u8) = (kani::any(), kani::any());
+	let (v, sv): (u64, i64) = (kani::any(), kani::any());
+	let (fb, db): (u32, u64) = (kani::any(), kani::any());
+	let mut r = ScriptReader { left: 1, key: (f, w), varint: v, svarint: sv, f32v: f32::from_bits(fb), f64v: f64::from_bits(db) };
+	let got = ok(GeoValue::read(&mut r));
+	match (f, w) {
+		(1, 2) => assert!(matches!(got, Some(GeoValue::String(_))), "field 1 (string_value) is not read as a string"),
+		(2, 5) => assert!(matches!(got, Some(GeoValue::Float(x)) if x.to_bits() == fb), "field 2 (float_value) is not read as this float"),
+		(3, 1) => assert!(matches!(got, Some(GeoValue::Double(x)) if x.to_bits() == db), "field 3 (double_value) is not read as this double"),
+		// int_value is an int64 stored as a plain two's-complement varint: -1 arrives as 2^64-1
+		(4, 0) => assert!(matches!(got, Some(GeoValue::Int(x)) if x == v as i64), "field 4 (int_value) is not the two's-complement reading of the varint"),
+		(5, 0) => assert!(matches!(got, Some(GeoValue::UInt(x)) if x == v), "field 5 (uint_value) is not the varint"),
+		(6, 0) => assert!(matches!(got, Some(GeoValue::Int(x)) if x == sv), "field 6 (sint_value) is not the zigzag varint"),
+		(7, 0) => assert!(matches!(got, Some(GeoValue::Bool(x)) if x == (v != 0)), "field 7 (bool_value) is not varint != 0"),
+		_ => assert!(got.is_none(), "an unknown field / wire type combination is accepted as a value"),
+	}
+	kani::cover!(f == 4 && w == 0 && v > u64::MAX / 2, "negative int_value");
+	kani::cover!(f == 6 && w == 0 && sv < 0);
+	kani::cover!(f == 9);
+	std::mem::forget(got);
+}}
+
+// no value at all: an empty Value message is an error, not a panic
+vproof! {4, fn c11_value_read_empty() {
+	let mut r = ScriptReader { left: 0, key: (0, 0), varint: 0, svarint: 0, f32v: 0.0, f64v: 0.0 };
+	let got = ok(GeoValue::read(&mut r));
+	assert!(got.is_none());
+	std::mem::forget(got);
+}}
+
+// reference protobuf reader (written from the encoding guide): varint at `at`, returns (value, next)
+fn ref_varint(b: &[u8], mut at: usize) -> Option<(u64, usize)> {
+	let mut v: u64 = 0;
+	let mut shift = 0u32;
+	while at < b.len() && shift < 70 {
+		let byte = b[at];
+		at += 1;
+		if shift < 64 {
+			v |= ((byte & 0x7f) as u64) << shift;
+		}
+		if byte & 0x80 == 0 {
+			return Some((v, at));
+		}
+		shift += 7;
+	}
+	None
+}
+
+// to_blob writes key (field << 3 | wire) and the payload the Mapbox vector tile Value message prescribes for the variant
+fn value_write<const KIND: u8>() {
+	let (u, i, b): (u64, i64, bool) = (kani::any(), kani::any(), kani::any());
+	let (fb, db): (u32, u64) = (kani::any(), kani::any());
+	let v = match KIND {
+		0 => GeoValue::UInt(u),
+		1 => GeoValue::Int(i),
+		2 => GeoValue::Bool(b),
+		3 => GeoValue::Float(f32::from_bits(fb)),
+		_ => GeoValue::Double(f64::from_bits(db)),
+	};
+	let blob = ok(v.to_blob()).unwrap();
+	let s = blob.as_slice();
+	assert!(s.len() >= 2);
+	let (field, wire) = ((s[0] >> 3) as u32, s[0] & 7);
+	match KIND {
+		0 => {
+			assert!(field == 5 && wire == 0, "UInt is not written as uint_value");
+			let d = ref_varint(s, 1);
+			assert!(d == Some((u, s.len())), "uint_value payload is not the varint of the value");
+		}
+		1 => {
+			// the writer may use sint_value (zigzag) or int_value (two's complement); both denote the same integer
+			let d = ref_varint(s, 1);
+			assert!(d.is_some() && d.unwrap().1 == s.len(), "integer payload is not one varint");
+			let raw = d.unwrap().0;
+			if field == 6 {
+				let zz = ((raw >> 1) as i64) ^ -((raw & 1) as i64);
+				assert!(wire == 0 && zz == i, "sint_value payload is not the zigzag varint of the value");
+			} else {
+				assert!(field == 4 && wire == 0 && raw as i64 == i, "Int is written as neither sint_value nor int_value of the value");
+			}
+		}
+		2 => {
+			assert!(field == 7 && wire == 0, "Bool is not written as bool_value");
+			assert!(ref_varint(s, 1) == Some((b as u64, s.len())));
+		}
+		3 => {
+			assert!(field == 2 && wire == 5 && s.len() == 5, "Float is not written as a 4-byte float_value");
+			assert!(u32::from_le_bytes([s[1], s[2], s[3], s[4]]) == fb);
+		}
+		_ => {
+			assert!(field == 3 && wire == 1 && s.len() == 9, "Double is not written as an 8-byte double_value");
+			assert!(u64::from_le_bytes([s[1], s[2], s[3], s[4], s[5], s[6], s[7], s[8]]) == db);
+		}
+	}
+	kani::cover!(s.len() >= if KIND == 2 { 2 } else { 5 });
+	std::mem::forget(blob);
+	std::mem::forget(v);
+}
+vproof! {12, fn c11_value_write_uint() { value_write::<0>(); }}
+vproof! {12, fn c11_value_write_int() { value_write::<1>(); }}
+vproof! {12, fn c11_value_write_bool() { value_write::<2>(); }}
+vproof! {12, fn c11_value_write_float() { value_write::<3>(); }}
+vproof! {12, fn c11_value_write_double() { value_write::<4>(); }}
 
 // ---------------------------------------------------------------------------------- layer: ground truth
 const KEY_POOL: [u8; 2] = [b'a', b'b'];
